@@ -321,10 +321,15 @@ def run_tlc(module: str, cfg: str | None = None, *, spec_dir: Path | str = SPEC,
         shutil.rmtree(work)
     work.mkdir(parents=True)
     cfgp = spec_dir / (cfg or module + ".cfg")
+    if workers == "auto":
+        workers = 1 if simulate and "file=" in (simulate or "") else int(os.environ.get("VERIF_TLC_WORKERS", min(16, os.cpu_count() or 4)))
     cmd = ["java", "-XX:+UseParallelGC"]
     if dfs:
         cmd.append("-Dtlc2.tool.queue.IStateQueue=StateDeque")
     cmd += java_opts or []
+    if str(workers) == "1" and not java_opts:
+        # short single-worker runs (trace validation, replay generation): C1 only + 2 GC threads is ~2x faster
+        cmd += ["-XX:TieredStopAtLevel=1", "-XX:ParallelGCThreads=2"]
     cmd += ["-cp", f"{JAR}:{DEPS}", "tlc2.TLC", "-metadir", str(work / "meta"), "-noGenerateSpecTE",
             "-config", str(cfgp)]
     if workers == "auto":
